@@ -12,6 +12,9 @@
 //!     (K2.md). A buffer counts as ACCEPTED iff `read_from_cs` returns Ok and `DEC_FAIL` is false.
 //!     Under Kani `EvaluationDomain::new` and the private `VerifyingKey::from_parts` are the struct-assembling
 //!     stand-ins of stubs.rs (as in h_vk_read.rs); natively the real ones run.
+//!     Harnesses `*_pin_N` / `*_pin` are the SAME bodies with the input (partly) pinned; the part (C17_K.py) re-decides
+//!     them to obtain concrete counterexample values when a registered harness FAILS (Kani's concrete playback of
+//!     the registered harnesses needs > 12 GB / > 200 s); they are never registered as obligations.
 //! (b) `ZkStdLibArch::write` / `ZkStdLibArch::read` (zk_stdlib/src/lib.rs, + bincode, executed).
 //! (c) `VerifyingKey::from_parts` (REAL, reached through `read_from_cs`) with Blake2b's `update` replaced by a
 //!     RECORDING oracle: the bytes it hashes into `transcript_repr` contain everything `write` emits.
